@@ -18,12 +18,17 @@ package starlark
 //@ axiom minint64 != nil && maxint64 != nil && oneBig != nil && minint64.val == MIN64 && maxint64.val == MAX64 && oneBig.val == 1
 
 // ---- int_posix64.go: the pointer-packed representation is trusted (unsafe).
+// Int.get: what the two arms mean (the mathematical value behind the unsafe pointer union, the
+// canonical-form invariant) is assumed -- "abstraction" -- because the union is built with unsafe
+// pointer arithmetic; the arm selection of the portable fallback (no mmap region) is checked:
+// a value is reported as small only if it fits an int32.
 //@ func Int.get
-//@   trusted unsafe pointer union; canonical-form invariant (big arm never holds an int32)
+//@   prop C10 C11
 //@   pure
 //@   results small big
-//@   ensures big == nil ==> fits32(small) && small == val(i)
-//@   ensures big != nil ==> big.val == val(i) && !fits32(val(i)) && small == 0
+//@   abstraction small_arm: big == nil ==> fits32(small) && small == val(i)
+//@   abstraction big_arm: big != nil ==> big.val == val(i) && !fits32(val(i)) && small == 0
+//@   assert /return x.Int64\(\), nil/ fallback_reports_small_only_for_int32: fits32(x.val)
 //@ func makeSmallInt
 //@   prop C10 C11
 //@   trusted unsafe pointer arithmetic
@@ -938,3 +943,15 @@ package starlark
 //@ func Call$1
 //@   prop C03 C16
 //@   ensures released_frame_is_blank: isnil(fr.callable) && fr.pc == 0 && isnil(fr.locals) && len(fr.locals) == 0 && fr.spanStart == 0
+// the same for the push iterator over a hashtable (Dict.Entries, Set.Elements)
+//@ func hashtable.entries$1
+//@   prop C06
+//@   modifies hashtable.itercount
+//@   ensures ht.itercount == wrapu32(old(ht.itercount) - 1)
+//@ func hashtable.entries
+//@   prop C06
+//@   callback yield preserves captured(ht)
+//@   callback yield preserves param(ht).itercount
+//@   invariant 1 captured(ht) == param(ht) && param(ht).itercount == ite(old(ht.frozen), old(ht.itercount), wrapu32(old(ht.itercount) + 1))
+//@   onpanic lock_released_if_yield_panics: param(ht).itercount == old(ht.itercount)
+//@   ensures lock_released: param(ht).itercount == old(ht.itercount)
